@@ -197,18 +197,25 @@ def cases(tier, control=False):
         N = 4
         for phi in itertools.product([0, 1], repeat=N):
             for U in _subsets(_all_pairs(N)):
-                if len(U) in (0, 1, 3, 6):
-                    continue        # 6 and a 3-subset sample are already there; keep the run bounded
+                if U in (_all_pairs(N), _all_pairs(N)[::2]):
+                    continue                      # already listed above
                 out.append(dict(kind="sv_ham", N=N, phi=list(phi), U=U, param_dtype="complex128"))
         N = 5
-        for phi in ([0] * 5, [1] * 5, [1, 0, 1, 0, 0], [0, 0, 0, 0, 1]):
+        chain = [[i, i + 1] for i in range(N - 1)]
+        for phi in itertools.product([0, 1], repeat=N):
+            for U in (_all_pairs(N), chain, []):
+                out.append(dict(kind="sv_ham", N=N, phi=list(phi), U=U, param_dtype="complex128"))
+        N = 6
+        for phi in ([0] * N, [1] * N, [1, 0] * 3, [0, 0, 0, 0, 0, 1], [1, 0, 0, 0, 0, 0]):
+            for U in (_all_pairs(N), [[i, i + 1] for i in range(N - 1)]):
+                out.append(dict(kind="sv_ham", N=N, phi=list(phi), U=U, param_dtype="complex128"))
+        N = 7
+        for phi in ([1] * N, [1, 0, 1, 0, 1, 0, 1], [0] * N):
             out.append(dict(kind="sv_ham", N=N, phi=list(phi), U=_all_pairs(N), param_dtype="complex128"))
     # ---- Lindbladian
     lind_N = [1, 2] if tier == "quick" else [1, 2, 3]
     for N in lind_N:
         phis = list(itertools.product([0, 1], repeat=N))
-        if N == 3:
-            phis = [(0, 0, 0), (1, 1, 1), (0, 1, 0)]
         for phi in phis:
             jump_sets = [[], [FULL], [FULL, FULL], [JUMP_PATTERNS[1], JUMP_PATTERNS[2]]]
             if tier == "thorough" and N <= 2:
@@ -218,7 +225,7 @@ def cases(tier, control=False):
             for jumps in jump_sets:
                 for gpu in (False, True):
                     for rho in ("hermitian", "general"):
-                        if rho == "general" and (N == 3 or (tier == "quick" and len(jumps) == 2 and jumps[0] == FULL)):
+                        if rho == "general" and ((N == 3 and len(jumps) > 1) or (tier == "quick" and len(jumps) == 2 and jumps[0] == FULL)):
                             continue
                         out.append(dict(kind="lindblad", N=N, phi=list(phi), U=_all_pairs(N), jumps=jumps,
                                         gpu=gpu, rho=rho, param_dtype="complex128"))
